@@ -182,13 +182,10 @@ func mergeSameAlias(selections []*graphql.Selection) ([]*graphql.Selection, erro
 				isLastSelectionSetCopied = true
 			}
 
-			seenSelections := make(map[string]struct{}, len(selection.SelectionSet.Selections))
-			for _, s := range selection.SelectionSet.Selections {
-				if _, ok := seenSelections[s.Alias]; !ok {
-					seenSelections[s.Alias] = struct{}{}
-					last.SelectionSet.Selections = append(last.SelectionSet.Selections, s)
-				}
-			}
+			// Keep every sub-selection, also several with the same alias: they may
+			// select different sub-fields, and flatten merges them (checking that
+			// name and arguments agree) when it recurses into the merged set.
+			last.SelectionSet.Selections = append(last.SelectionSet.Selections, selection.SelectionSet.Selections...)
 			seenFragments := make(map[*graphql.Fragment]struct{}, len(selection.SelectionSet.Fragments))
 			for _, f := range selection.SelectionSet.Fragments {
 				if _, ok := seenFragments[f]; !ok {
